@@ -90,6 +90,8 @@ const UNKNOWN_TRAITS: &[&str] = &[
     "Z\u{e4}hlung", "\u{c4}pfell", "Add\u{c4}ssign", "\u{540d}Clone", "\u{6f14}\u{7b97}\u{5b50}X", "Gr\u{f6}\u{df}e",
     "\u{c4}Assign", "\u{52a0}Assign", "\u{dc}n\u{ef}c\u{f6}d\u{e9}", "\u{52a0}\u{6cd5}\u{904b}\u{7b97}", "Clon\u{e9}", "\u{e9}Clone",
     "A\u{e9}", "Ab\u{e9}", "Abc\u{e9}", "Abcd\u{e9}", "Abcde\u{e9}", "\u{e9}A", "\u{e9}Ab", "\u{e9}Abc", "\u{e9}Abcd", "\u{e9}Abcde",
+    "::core::clone::Clone", "std::ops::Add", "core::ops::AddAssign", "Clone<T>", "Add::<u8>", "crate::Add", "self::Clone", "Clone::Clone",
+    "<T as Tr>::Clone", "Clone!", "&Clone", "dyn Clone", "?Sized", "'a", "1", "\"Clone\"", "Clone = 1", "Clone: Copy", "Clone + Copy", "(Clone)", "[Clone]", "{Clone}",
     "\u{10400}A", "A\u{10400}", "Ab\u{10400}cdef", "\u{1e9e}Assign", "Ord\u{e9}", "Partial\u{e9}q", "Deref\u{e9}Mut",
 ];
 pub fn unknown_traits() -> &'static [&'static str] {
